@@ -12,7 +12,7 @@ def run(tier):
         design_cfgs=[("MC_Client_stream.cfg", ["SubNext", "SubEnd", "SubUnsubStart", "SubUnsubEnqueue", "SubDrop", "RtRecv", "RtForward", "StStep"],
                       "one subscription, buffer 1, pushes singly and in arrays (notifications, closes), consumer next / unsubscribe / drop at every position")],
         asis=[("MC_Client_asis_F3.cfg", "Inv_EndsOnClose", "a close notification inside an array is ignored (F3)")],
-        groups=["stream", "mixed"], nscen=n)
+        groups=["stream", "mixed", "tight"], nscen=n)
     rep.cov["rule"] = ("design: all interleavings of peer pushes (every grouping into singles / arrays of <= 2), the read task, the send task and the "
                        "consumer for one subscription with buffer 1; conformance: seeded scenarios with two subscriptions (numeric and string "
                        "ids), notifications for live / closed / unknown ids, close notifications, method notifications, arrays, next / "
